@@ -353,6 +353,7 @@ func c15Index(q *fq, fn *ssa.Function, sel ssa.Instruction, chain []ssa.Value) {
 		if isSI(av) {
 			sawDeliver = true
 			if paired {
+				onStack := map[*ssa.Phi]bool{}
 				var okGuard func(bv ssa.Value, pred *ssa.BasicBlock, d int) bool
 				okGuard = func(bv ssa.Value, pred *ssa.BasicBlock, d int) bool {
 					if c, isK := constInt(bv); isK && c < 0 {
@@ -385,9 +386,15 @@ func c15Index(q *fq, fn *ssa.Function, sel ssa.Instruction, chain []ssa.Value) {
 							return true
 						}
 					}
-					if ph, isPhi := bv.(*ssa.Phi); isPhi && d < 4 && ph != bPhi {
-						// the result of a search that was written as a helper: every way into the join is one of the above
+					if ph, isPhi := bv.(*ssa.Phi); isPhi && d < 4 && ph != bPhi && !onStack[ph] {
+						// the result of a search that was written as a helper, or that carries its result round the search
+						// loop: every way into the join is one of the above (the value it already has aside)
+						onStack[ph] = true
+						defer delete(onStack, ph)
 						for k, e := range ph.Edges {
+							if ep, isP := e.(*ssa.Phi); isP && onStack[ep] {
+								continue
+							}
 							if !okGuard(e, ph.Block().Preds[k], d+1) {
 								return false
 							}
